@@ -19,6 +19,7 @@ import (
 	"github.com/itchio/lake"
 	"github.com/itchio/lake/pools/fspool"
 	"github.com/itchio/lake/tlc"
+	"github.com/itchio/savior"
 	"github.com/itchio/savior/seeksource"
 	"github.com/itchio/wharf/bsdiff"
 	"github.com/itchio/wharf/pwr"
@@ -47,7 +48,23 @@ func compressionOf(algo string, q int32) *pwr.CompressionSettings {
 }
 
 // realDiffDirs runs the real signer + differ on two directories.
+// diffEnv: ways in which the ENVIRONMENT of a diff may differ while the build pair and the settings stay the same -
+// all of them allowed by the contracts the differ is written against.
+type diffEnv struct {
+	SrcEOF    bool // the source pool's readers return the last bytes of a file TOGETHER with io.EOF (n > 0, err == io.EOF)
+	SrcChunk  int  // > 0: the source pool's readers return at most this many bytes per Read
+	StoredSig bool // the old build's hashes come from a signature STREAM (a first push: diff of nothing -> old) read back with pwr.ReadSignature, as a client does, not straight from ComputeSignature
+}
+
+func (e diffEnv) String() string {
+	return fmt.Sprintf("srcEOF=%v srcChunk=%d storedSig=%v", e.SrcEOF, e.SrcChunk, e.StoredSig)
+}
+
 func realDiffDirs(oldDir, newDir string, comp *pwr.CompressionSettings) (*diffResult, error) {
+	return realDiffDirsEnv(oldDir, newDir, comp, diffEnv{})
+}
+
+func realDiffDirsEnv(oldDir, newDir string, comp *pwr.CompressionSettings, env diffEnv) (*diffResult, error) {
 	targetContainer, err := tlc.WalkAny(oldDir, tlc.WalkOpts{})
 	if err != nil {
 		return nil, err
@@ -56,15 +73,38 @@ func realDiffDirs(oldDir, newDir string, comp *pwr.CompressionSettings) (*diffRe
 	if err != nil {
 		return nil, err
 	}
-	targetSig, err := pwr.ComputeSignature(context.Background(), targetContainer, fspool.New(targetContainer, oldDir), nullConsumer())
-	if err != nil {
-		return nil, err
+	var targetSig []wsync.BlockHash
+	if env.StoredSig {
+		var p0, s0 bytes.Buffer
+		first := &pwr.DiffContext{Compression: compressionOf("NONE", 0), Consumer: nullConsumer(), SourceContainer: targetContainer,
+			Pool: fspool.New(targetContainer, oldDir), TargetContainer: &tlc.Container{}, TargetSignature: []wsync.BlockHash{}}
+		if err := first.WritePatch(context.Background(), &p0, &s0); err != nil {
+			return nil, fmt.Errorf("first push: %v", err)
+		}
+		src := seeksource.FromBytes(s0.Bytes())
+		if _, err := src.Resume(nil); err != nil {
+			return nil, err
+		}
+		si, err := pwr.ReadSignature(context.Background(), src)
+		if err != nil {
+			return nil, fmt.Errorf("reading the stored signature: %v", err)
+		}
+		targetSig = si.Hashes
+	} else {
+		targetSig, err = pwr.ComputeSignature(context.Background(), targetContainer, fspool.New(targetContainer, oldDir), nullConsumer())
+		if err != nil {
+			return nil, err
+		}
+	}
+	var pool lake.Pool = fspool.New(sourceContainer, newDir)
+	if env.SrcEOF || env.SrcChunk > 0 {
+		pool = &shortReadPool{Pool: pool, n: env.SrcChunk, dataWithEOF: env.SrcEOF}
 	}
 	dctx := &pwr.DiffContext{
 		Compression:     comp,
 		Consumer:        nullConsumer(),
 		SourceContainer: sourceContainer,
-		Pool:            fspool.New(sourceContainer, newDir),
+		Pool:            pool,
 		TargetContainer: targetContainer,
 		TargetSignature: targetSig,
 	}
@@ -76,12 +116,16 @@ func realDiffDirs(oldDir, newDir string, comp *pwr.CompressionSettings) (*diffRe
 		Fresh: dctx.FreshBytes, Reused: dctx.ReusedBytes, TargetSig: targetSig}, nil
 }
 
+type optPools struct{ Target, Source lake.Pool }
+
 type optParams struct {
 	Partitions  int
 	Concurrency int
 	ForceMapAll bool
 	SizeLimit   int64
 	Comp        *pwr.CompressionSettings
+	Pools       *optPools // non-nil: pools shared by several optimizations (created and read through on first use)
+	Again       *[]byte   // non-nil: Optimize is called a second time on the same context; its output goes here
 }
 
 func realOptimize(patch []byte, oldDir, newDir string, op optParams) ([]byte, rediff.DiffMappings, error) {
@@ -97,14 +141,41 @@ func realOptimize(patch []byte, oldDir, newDir string, op optParams) ([]byte, re
 	if err != nil {
 		return nil, nil, err
 	}
+	// the pools: fresh ones, or - op.Pools - pools that live across several optimizations and have been read before
+	// (a caller sweeping settings over one patch, or one that looked at the builds through the same pools)
+	var tp, sp lake.Pool
+	if op.Pools != nil {
+		if op.Pools.Target == nil {
+			op.Pools.Target = fspool.New(rc.GetTargetContainer(), oldDir)
+			op.Pools.Source = fspool.New(rc.GetSourceContainer(), newDir)
+			// (history: every file of both builds read to its end through the pools)
+			for i := range rc.GetTargetContainer().Files {
+				if r, err := op.Pools.Target.GetReadSeeker(int64(i)); err == nil {
+					io.Copy(io.Discard, r)
+				}
+			}
+			for i := range rc.GetSourceContainer().Files {
+				if r, err := op.Pools.Source.GetReadSeeker(int64(i)); err == nil {
+					io.Copy(io.Discard, r)
+				}
+			}
+		}
+		tp, sp = op.Pools.Target, op.Pools.Source
+	} else {
+		tp, sp = fspool.New(rc.GetTargetContainer(), oldDir), fspool.New(rc.GetSourceContainer(), newDir)
+	}
 	var out bytes.Buffer
-	err = rc.Optimize(rediff.OptimizeParams{
-		TargetPool:  fspool.New(rc.GetTargetContainer(), oldDir),
-		SourcePool:  fspool.New(rc.GetSourceContainer(), newDir),
-		PatchWriter: &out,
-	})
+	err = rc.Optimize(rediff.OptimizeParams{TargetPool: tp, SourcePool: sp, PatchWriter: &out})
 	if err != nil {
 		return nil, rc.GetDiffMappings(), err
+	}
+	if op.Again != nil {
+		// the same context optimizes the same patch once more, with the same pools
+		var out2 bytes.Buffer
+		if err := rc.Optimize(rediff.OptimizeParams{TargetPool: tp, SourcePool: sp, PatchWriter: &out2}); err != nil {
+			return nil, rc.GetDiffMappings(), fmt.Errorf("second Optimize of the same context: %v", err)
+		}
+		*op.Again = out2.Bytes()
 	}
 	return out.Bytes(), rc.GetDiffMappings(), nil
 }
@@ -303,21 +374,23 @@ func decodePatch(patch []byte) *decoded {
 // ---------------------------------------------------------------- apply
 
 type applyOpts struct {
-	Bowl      string // fresh | overlay
-	OldDir    string // the old build (fresh: read-only target; overlay: patched in place)
-	OutDir    string // fresh: output folder
-	StageDir  string // overlay: stage folder
-	Consumer  patcher.SaveConsumer
-	Whitelist map[int64]bool
-	From      *patcher.Checkpoint
-	NoCommit  bool
-	WrapPool  func(lake.Pool, *tlc.Container) lake.Pool // e.g. safekeeper / recording pool
-	WrapBowl  func(bowl.Bowl) bowl.Bowl
+	Bowl         string // fresh | overlay
+	OldDir       string // the old build (fresh: read-only target; overlay: patched in place)
+	OutDir       string // fresh: output folder
+	StageDir     string // overlay: stage folder
+	Consumer     patcher.SaveConsumer
+	Whitelist    map[int64]bool
+	From         *patcher.Checkpoint
+	NoCommit     bool
+	WrapPool     func(lake.Pool, *tlc.Container) lake.Pool // e.g. safekeeper / recording pool
+	WrapBowl     func(bowl.Bowl) bowl.Bowl
 	BeforeCommit func()
 	// Interrupt > 0: the save consumer stops the application at its first Interrupt checkpoints; each time the SAME
 	// patcher is resumed from a gob round trip of that checkpoint with a new pool and a new bowl
 	Interrupt int
 	Stops     *int
+	// Gran > 1: the patch source restarts only at multiples of Gran (savior.Source.Resume returns where it really is)
+	Gran int64
 }
 
 type applyResult struct {
@@ -329,7 +402,10 @@ type applyResult struct {
 
 func realApplyPatch(patch []byte, o applyOpts) *applyResult {
 	res := &applyResult{}
-	src := seeksource.FromBytes(patch)
+	var src savior.SeekSource = seeksource.FromBytes(patch)
+	if o.Gran > 1 {
+		src = &coarseSource{SeekSource: src, gran: o.Gran}
+	}
 	p, err := patcher.New(src, nullConsumer())
 	if err != nil {
 		res.Err = err
